@@ -284,6 +284,6 @@ _c.PROP_NOTES['C13'] = ('Only the sequential, per-function half of C13 is decide
 _c.PROP_LEVEL['C18'] = 'other'
 _c.PROP_NOTES['C18'] = ('Decided by contract (discharged obligations): the log-input half - parse_all / into_sink raise nothing but UnicodeDecodeError, and only for a stream whose decoder is strict; '
                         'file_input_main, piped_input_main and run_program establish a total decoder (this obligation failed on the pinned tree at all three sites: genuine defect, repaired) '
-                        'and every opened connection is closed by cleanup (C04/C08 contracts); every Matcher.matches override raises nothing and writes nothing (defining contracts, C05 layer M); the scanners of the matcher parser raise nothing but RuntimeError. '
-                        'Bounded stand-ins (contract text evaluated on the real functions over generated inputs, NOT proof): matcher.parse raises only RuntimeError on strings over the matcher alphabet and arbitrary Unicode, '
+                        'and every opened connection is closed by cleanup (C04/C08 contracts); every Matcher.matches override raises nothing and writes nothing (defining contracts, C05 layer M); the matcher parser raises nothing but RuntimeError (three pieces assumed: two comprehensions over a callable parameter, one regular expression). '
+                        'Bounded stand-ins (contract text evaluated on the real functions over generated inputs, NOT proof): matcher.parse as a whole on strings over the matcher alphabet and arbitrary Unicode (cross-check of the proof above), '
                         'an accepted matcher can be printed, simplified and evaluated on every sample message; Controller.process_command on generated printable command lines raises nothing and responds.')
